@@ -102,6 +102,13 @@ fn get<K: IntoVal<Env, Val>, V: TryFromVal<Env, Val>>(dur: u8, k: &K) -> Option<
         model::overflow()
     }
     let key = key(k);
+    #[cfg(feature = "lazyfam")]
+    if let Some(i) = model::lazy_index(dur, &key) {
+        return match model::lazy_read(i) {
+            Some(words) => Some(V::__take(&words[..V::__W])),
+            None => None,
+        };
+    }
     let w = model::world();
     let seq = w.seq;
     let mut found = false;
@@ -135,6 +142,13 @@ fn get<K: IntoVal<Env, Val>, V: TryFromVal<Env, Val>>(dur: u8, k: &K) -> Option<
         model::overflow()
     }
     let key = key(k);
+    #[cfg(feature = "lazyfam")]
+    if let Some(i) = model::lazy_index(dur, &key) {
+        return match model::lazy_read(i) {
+            Some(words) => Some(V::__take(&words[..V::__W])),
+            None => None,
+        };
+    }
     let w = model::world();
     let seq = w.seq;
     let mut i = 0;
